@@ -33,7 +33,7 @@ MAX_STEPS = 30
 FAULT_STATES = ["unbuildable", "unbuildable_real", "notimpl", "flaky"]
 EXCS = {"RuntimeError": RuntimeError, "ValueError": ValueError, "OSError": OSError, "KeyError": KeyError, "MemoryError": MemoryError, "InjectedFault": InjectedFault}
 VIEWS = ["contig", "slice", "step", "transpose", "inner", "expand"]
-CLS = ["rand", "all256", "zeros", "ff", "ramp", "cover"]
+CLS = ["rand", "all256", "zeros", "ff", "ramp", "cover", "low2"]
 ATEN = ["add", "eq", "sum", "select", "slice", "reshape", "clone", "to_int32", "cat"]
 OPKINDS = ["unpack_bytes", "unpack_packed", "pack", "aten", "detach", "to", "flatten", "noext", "mutate", "refill", "meta"]
 PREFIXES = ["", "w.", "weight._data.", "m.0.weight._data."]
@@ -181,6 +181,9 @@ def make_bytes(desc, mask=None):
         t = torch.from_numpy(ref_unpack(pay, mask)[: base[0]].copy())
     elif cls == "zeros":
         t = torch.zeros(n, dtype=torch.uint8)
+    elif cls == "low2":  # values that fit in 2 bits: a buffer the caller may pack as it is
+        g = torch.Generator().manual_seed(int(desc["gen"]) % (2**62))
+        t = torch.randint(0, 4, (n,), generator=g, dtype=torch.uint8)
     elif cls == "ff":
         t = torch.full((n,), 255, dtype=torch.uint8)
     elif cls == "ramp":
@@ -369,6 +372,12 @@ class World:
 
     def check_held(self, op, p):
         ok = True
+        for pid, e in list(self.pool.items()):
+            if e.kind == "packed" and not np.array_equal(_np(e.obj._data), e.raw):
+                ok = False
+                self.res["judged"] += 1
+                self.violate("history", op["op"], {"what": "packed_payload_changed"}, f"the payload of packed tensor {pid} changed while {op['op']} ran (it shares memory with something the caller may write to?)", p)
+                del self.pool[pid]
         for k, (t, want) in enumerate(self.__dict__.get("held", [])):
             if t is None:
                 continue
@@ -895,7 +904,7 @@ class Planner:
     def payload(self):
         r, sw = self.rng, self.sw
         rank = r.choice(sw["ranks"])
-        shape = [r.randint(1, sw["max_rows"])] + [r.choice(sw["trail"]) for _ in range(rank - 1)]
+        shape = [1 if r.random() < 0.12 else r.randint(1, sw["max_rows"])] + [r.choice(sw["trail"]) for _ in range(rank - 1)]
         while int(np.prod(shape)) > 2048:  # x2 for strided bases stays within 4096 bytes
             i = max(range(1, rank), key=lambda j: shape[j])
             shape[i] = max(1, shape[i] // 2)
@@ -956,7 +965,7 @@ class Planner:
             if not self.bytes or (r.random() < 0.5 and len(self.bytes) < 5):
                 bid = f"b{self.n}"
                 op = self.emit(ops, dict(self.payload(), op="bytes", id=bid))
-                self.bytes[bid] = (255, op["shape"])
+                self.bytes[bid] = ({"zeros": 0, "low2": 3}.get(op["cls"], 255), op["shape"])
             bits, x = r.choice(sw["bits"]), r.choice(sorted(self.bytes))
             op = self.emit(ops, {"op": "unpack", "x": x, "bits": bits, "via": self.vias(False)})
             shape = self.bytes[x][1]
@@ -971,7 +980,7 @@ class Planner:
         elif k == "refill":
             if self.bytes:
                 x = r.choice(sorted(self.bytes))
-                self.emit(ops, {"op": "refill", "x": x, "gen": self.S.sub("refill", self.n), "cls": r.choice(sw["cls"])})
+                self.emit(ops, {"op": "refill", "x": x, "gen": self.S.sub("refill", self.n), "cls": "low2" if self.bytes[x][0] <= 3 else r.choice(sw["cls"])})
                 # the refilled buffer is unpacked again right away (same address, same shape, new payload)
                 self.emit(ops, {"op": "unpack", "x": x, "bits": r.choice(sw["bits"]), "via": self.vias(False)})
         elif k == "pack":
